@@ -34,7 +34,7 @@ ASSUMPTIONS = ['precondition: 1 <= t < m < |F| (share coordinates 1..m are disti
                'the check replaces it by an enumerator and weighs every answer sequence equally, which is exact '
                'because the signature (t*n calls, all with k = |F|) is verified on every run',
                'numpy from the offline wheelhouse (/verif/.deps) for the array variant and for counting share tuples (np.bincount)']
-CASE_TIMEOUT = 300
+CASE_TIMEOUT = 900
 
 boot(numpy=True)
 from mpyc import thresha  # noqa: E402
